@@ -42,7 +42,14 @@ static const int MAXT = 16;
 
 enum MState { M_IDLE = 0, M_NOT_STARTED, M_RUNNABLE, M_BLOCKED, M_AT_BARRIER, M_FINISHED };
 
+// one work-sharing loop (schedule dynamic / guided / runtime): iterations are handed out in chunks of the iteration index space
+struct LoopWS {
+    uint64_t n_iter = 0, next = 0, chunk = 1; bool guided = false;
+    bool is_ull = false, up = true; long s_start = 0, s_incr = 1; unsigned long long u_start = 0, u_incr = 1;
+};
+
 struct Member {
+    uint64_t ws_seen = 0, single_seen = 0;   // work-sharing constructs this member has entered in the current region
     int idx = 0;
     pthread_t th{};
     sem_t sem;
@@ -61,6 +68,9 @@ struct Region {
     uint64_t step = 0;
     unsigned sections_count = 0, sections_next = 0;
     int crit_owner = -1, atomic_owner = -1;
+    LoopWS ws; uint64_t ws_gen = 0, single_gen = 0;        // current work-sharing loop / single construct and how many were started
+    int bar_count = 0; uint64_t bar_gen = 0;               // explicit barriers
+    const void* named_key[8] = {nullptr}; int named_owner[8] = {-1, -1, -1, -1, -1, -1, -1, -1};   // named critical sections
     int label = 0;
     std::vector<uint64_t> change_points;   // PCT
     long low_prio = -1000;
@@ -88,6 +98,7 @@ struct Global {
     pthread_mutex_t fr_crit = PTHREAD_MUTEX_INITIALIZER, fr_atomic = PTHREAD_MUTEX_INITIALIZER;
     pthread_mutex_t fr_mu = PTHREAD_MUTEX_INITIALIZER; pthread_cond_t fr_cv = PTHREAD_COND_INITIALIZER;
     int fr_pending = 0;
+    pthread_mutex_t fr_named = PTHREAD_MUTEX_INITIALIZER;
 };
 static Global G;
 
@@ -113,6 +124,7 @@ static thread_local int tl_member = -1;     // index in the current outermost re
 static thread_local int tl_nest = 0;        // depth of nested (inlined, team of one) regions
 static thread_local int tl_quiet = 0;       // >0: instrumentation has no effect on this thread
 static thread_local int tl_in_hook = 0;
+static thread_local LoopWS tl_solo;          // work-sharing loop of a team of one (nested / inlined regions, serial contexts)
 
 const char* strategy_name(int s) { static const char* n[] = {"rtc", "rtc-perm", "pct", "rw", "starve"}; return (s >= 0 && s < 5) ? n[s] : "?"; }
 
@@ -360,24 +372,28 @@ static uint64_t& estimate_for(const void* fn) {
     return G.est_val[0];
 }
 
-static void run_region(void (*fn)(void*), void* data, unsigned num_threads, unsigned sections) {
+static void run_region(void (*fn)(void*), void* data, unsigned num_threads, unsigned sections, const LoopWS* pre = nullptr) {
     // nested region or region entered while instrumentation is quiet: team of one, inline
     if (tl_member >= 0 || tl_nest > 0 || G.reg.active) {
         unsigned sc = G.reg.sections_count, sn = G.reg.sections_next;
         bool nested_sections = sections > 0;
         if (nested_sections && tl_member < 0) { G.reg.sections_count = sections; G.reg.sections_next = 0; }
+        LoopWS saved = tl_solo; if (pre) tl_solo = *pre;
         tl_nest++;
-        fn(data);
-        tl_nest--;
+        try { fn(data); } catch (...) { tl_nest--; tl_solo = saved; throw; }
+        tl_nest--; tl_solo = saved;
         if (nested_sections && tl_member < 0) { G.reg.sections_count = sc; G.reg.sections_next = sn; }
         return;
     }
     int n = G.cfg.team > 0 ? G.cfg.team : (num_threads ? (int)num_threads : G.default_team);
+    if (num_threads == 1) n = 1;      // if(false) / num_threads(1): the code itself asks for a team of one
     if (!G.running) n = 1;
     if (n < 1) n = 1; if (n > MAXT) n = MAXT;
     Region& r = G.reg;
     r = Region();
     r.fn = fn; r.data = data; r.n = n; r.sections_count = sections; r.active = true;
+    if (pre) { r.ws = *pre; r.ws_gen = 1; }
+    for (int i = 0; i < n; i++) { G.mem[i].ws_seen = pre ? 1 : 0; G.mem[i].single_seen = 0; }
     G.st.regions++;
     if ((uint64_t)n > G.st.max_team) G.st.max_team = n;
     if (G.region_cb && G.running && tl_quiet == 0) { tl_quiet++; G.region_cb(true, 0, n); tl_quiet--; }
@@ -390,9 +406,9 @@ static void run_region(void (*fn)(void*), void* data, unsigned num_threads, unsi
         run_member_fn(0);
         pthread_mutex_lock(&G.fr_mu); while (G.fr_pending > 0) pthread_cond_wait(&G.fr_cv, &G.fr_mu); pthread_mutex_unlock(&G.fr_mu);
     } else if (n == 1) {
-        tl_member = 0;
-        try { fn(data); } catch (...) { tl_member = -1; r.active = false; throw; }
-        tl_member = -1;
+        tl_member = 0; LoopWS saved = tl_solo; if (pre) tl_solo = *pre;
+        try { fn(data); } catch (...) { tl_member = -1; r.active = false; tl_solo = saved; throw; }
+        tl_member = -1; tl_solo = saved;
     } else {
         for (int i = 0; i < n; i++) { ensure_thread(i); G.mem[i].state = M_NOT_STARTED; G.mem[i].blocked_on = nullptr; }
         // priorities
@@ -528,7 +544,91 @@ unsigned GOMP_sections_next(void) {
 }
 void GOMP_sections_end_nowait(void) {}
 void GOMP_sections_end(void) {}
-void GOMP_barrier(void) {}
+
+// ---- explicit barrier (also the implicit one at the end of a work-sharing loop without nowait)
+static char tok_bar;
+static bool in_team() { return tl_member >= 0 && G.reg.n > 1 && tl_nest == 0; }
+static void team_barrier() {
+    if (!in_team()) return;
+    Region& r = G.reg;
+    if (G.cfg.free_running) {
+        pthread_mutex_lock(&G.fr_mu); uint64_t gen = r.bar_gen;
+        if (++r.bar_count == r.n) { r.bar_count = 0; r.bar_gen++; pthread_cond_broadcast(&G.fr_cv); }
+        else while (r.bar_gen == gen) pthread_cond_wait(&G.fr_cv, &G.fr_mu);
+        pthread_mutex_unlock(&G.fr_mu); return;
+    }
+    TSAN_REL(&tok_bar);
+    sched_point(C_SECTION);
+    uint64_t gen = r.bar_gen;
+    if (++r.bar_count == r.n) { r.bar_count = 0; r.bar_gen++; wake_blocked(&r.bar_gen); }
+    else while (r.bar_gen == gen) block_on(&r.bar_gen);
+    TSAN_ACQ(&tok_bar);
+}
+void GOMP_barrier(void) { team_barrier(); }
+
+// ---- work-sharing loops with schedule(dynamic | guided | runtime), long and unsigned long long flavours
+static LoopWS make_ws(long start, long end, long incr, long chunk, bool guided) {
+    LoopWS w; w.is_ull = false; w.s_start = start; w.s_incr = incr; w.guided = guided; w.chunk = chunk > 0 ? (uint64_t)chunk : 1;
+    if (incr > 0) w.n_iter = end > start ? ((uint64_t)(end - start) + (uint64_t)incr - 1) / (uint64_t)incr : 0;
+    else if (incr < 0) w.n_iter = start > end ? ((uint64_t)(start - end) + (uint64_t)(-incr) - 1) / (uint64_t)(-incr) : 0;
+    return w;
+}
+static LoopWS make_ws_ull(bool up, unsigned long long start, unsigned long long end, unsigned long long incr, unsigned long long chunk, bool guided) {
+    LoopWS w; w.is_ull = true; w.up = up; w.u_start = start; w.u_incr = incr; w.guided = guided; w.chunk = chunk > 0 ? chunk : 1;
+    if (up) w.n_iter = (end > start && incr) ? (end - start + incr - 1) / incr : 0;
+    else { unsigned long long d = (unsigned long long)(-(long long)incr); w.n_iter = (start > end && d) ? (start - end + d - 1) / d : 0; }
+    return w;
+}
+static bool ws_grab(LoopWS& w, bool team, uint64_t& i0, uint64_t& i1) {
+    if (team) { if (G.cfg.free_running) pthread_mutex_lock(&G.fr_mu); else sched_point(C_SECTION); }
+    bool ok = w.next < w.n_iter;
+    if (ok) { uint64_t c = w.chunk; if (w.guided && team) { uint64_t g = (w.n_iter - w.next) / (uint64_t)(2 * G.reg.n); if (g > c) c = g; } i0 = w.next; i1 = std::min(w.n_iter, i0 + c); w.next = i1; }
+    if (team && G.cfg.free_running) pthread_mutex_unlock(&G.fr_mu);
+    return ok;
+}
+static LoopWS& ws_begin(const LoopWS& init, bool& team) {
+    team = in_team();
+    if (!team) { tl_solo = init; return tl_solo; }
+    Region& r = G.reg; Member& m = G.mem[tl_member];
+    if (G.cfg.free_running) pthread_mutex_lock(&G.fr_mu);
+    m.ws_seen++; if (m.ws_seen > r.ws_gen) { r.ws = init; r.ws_gen = m.ws_seen; }
+    if (G.cfg.free_running) pthread_mutex_unlock(&G.fr_mu);
+    return r.ws;
+}
+static LoopWS& ws_current(bool& team) { team = in_team(); return team ? G.reg.ws : tl_solo; }
+static bool ws_next_long(LoopWS& w, bool team, long* a, long* b) { uint64_t i0, i1; if (!ws_grab(w, team, i0, i1)) return false; *a = w.s_start + (long)i0 * w.s_incr; *b = w.s_start + (long)i1 * w.s_incr; return true; }
+static bool ws_next_ull(LoopWS& w, bool team, unsigned long long* a, unsigned long long* b) { uint64_t i0, i1; if (!ws_grab(w, team, i0, i1)) return false; *a = w.u_start + i0 * w.u_incr; *b = w.u_start + i1 * w.u_incr; return true; }
+
+#define SIM_LOOP_LONG(NAME, GUIDED, CHUNKEXPR) \
+    bool GOMP_loop_##NAME##_start(long start, long end, long incr, long chunk, long* istart, long* iend) { bool team; LoopWS& w = ws_begin(make_ws(start, end, incr, CHUNKEXPR, GUIDED), team); return ws_next_long(w, team, istart, iend); } \
+    bool GOMP_loop_##NAME##_next(long* istart, long* iend) { bool team; LoopWS& w = ws_current(team); return ws_next_long(w, team, istart, iend); } \
+    void GOMP_parallel_loop_##NAME(void (*fn)(void*), void* data, unsigned num_threads, long start, long end, long incr, long chunk, unsigned flags) { LoopWS w = make_ws(start, end, incr, CHUNKEXPR, GUIDED); run_region(fn, data, num_threads, 0, &w); }
+#define SIM_LOOP_ULL(NAME, GUIDED, CHUNKEXPR) \
+    bool GOMP_loop_ull_##NAME##_start(bool up, unsigned long long start, unsigned long long end, unsigned long long incr, unsigned long long chunk, unsigned long long* istart, unsigned long long* iend) { bool team; LoopWS& w = ws_begin(make_ws_ull(up, start, end, incr, CHUNKEXPR, GUIDED), team); return ws_next_ull(w, team, istart, iend); } \
+    bool GOMP_loop_ull_##NAME##_next(unsigned long long* istart, unsigned long long* iend) { bool team; LoopWS& w = ws_current(team); return ws_next_ull(w, team, istart, iend); }
+SIM_LOOP_LONG(dynamic, false, chunk) SIM_LOOP_LONG(nonmonotonic_dynamic, false, chunk) SIM_LOOP_LONG(guided, true, chunk) SIM_LOOP_LONG(nonmonotonic_guided, true, chunk)
+SIM_LOOP_ULL(dynamic, false, chunk) SIM_LOOP_ULL(nonmonotonic_dynamic, false, chunk) SIM_LOOP_ULL(guided, true, chunk) SIM_LOOP_ULL(nonmonotonic_guided, true, chunk)
+// schedule(runtime): handed out one iteration at a time
+#define SIM_LOOP_RT(NAME) \
+    bool GOMP_loop_##NAME##_start(long start, long end, long incr, long* istart, long* iend) { bool team; LoopWS& w = ws_begin(make_ws(start, end, incr, 1, false), team); return ws_next_long(w, team, istart, iend); } \
+    bool GOMP_loop_##NAME##_next(long* istart, long* iend) { bool team; LoopWS& w = ws_current(team); return ws_next_long(w, team, istart, iend); } \
+    void GOMP_parallel_loop_##NAME(void (*fn)(void*), void* data, unsigned num_threads, long start, long end, long incr, unsigned flags) { LoopWS w = make_ws(start, end, incr, 1, false); run_region(fn, data, num_threads, 0, &w); } \
+    bool GOMP_loop_ull_##NAME##_start(bool up, unsigned long long start, unsigned long long end, unsigned long long incr, unsigned long long* istart, unsigned long long* iend) { bool team; LoopWS& w = ws_begin(make_ws_ull(up, start, end, incr, 1, false), team); return ws_next_ull(w, team, istart, iend); } \
+    bool GOMP_loop_ull_##NAME##_next(unsigned long long* istart, unsigned long long* iend) { bool team; LoopWS& w = ws_current(team); return ws_next_ull(w, team, istart, iend); }
+SIM_LOOP_RT(runtime) SIM_LOOP_RT(nonmonotonic_runtime) SIM_LOOP_RT(maybe_nonmonotonic_runtime)
+void GOMP_loop_end(void) { team_barrier(); }
+void GOMP_loop_end_nowait(void) {}
+bool GOMP_loop_end_cancel(void) { team_barrier(); return false; }
+
+// ---- single
+bool GOMP_single_start(void) {
+    if (!in_team()) return true;
+    Region& r = G.reg; Member& m = G.mem[tl_member];
+    if (G.cfg.free_running) pthread_mutex_lock(&G.fr_mu); else sched_point(C_SECTION);
+    m.single_seen++; bool mine = m.single_seen > r.single_gen; if (mine) r.single_gen = m.single_seen;
+    if (G.cfg.free_running) pthread_mutex_unlock(&G.fr_mu);
+    return mine;
+}
 
 static void serial_acquire(int* owner, const void* key, int cause, uint64_t* blocked_counter) {
     sched_point(cause);
@@ -546,6 +646,24 @@ void GOMP_critical_end(void) {
     if (G.cfg.free_running) { pthread_mutex_unlock(&G.fr_crit); return; }
     TSAN_REL(&tok_crit);
     G.reg.crit_owner = -1; wake_blocked(&G.reg.crit_owner); sched_point(C_UNLOCK);
+}
+
+// named critical sections: one lock per name (the address of the compiler-generated lock variable)
+void GOMP_critical_name_start(void** pptr) {
+    if (tl_member < 0 || G.reg.n <= 1 || tl_nest > 0) return;
+    if (G.cfg.free_running) { pthread_mutex_lock(&G.fr_named); return; }      // (free-running: all names share one mutex)
+    Region& r = G.reg; int slot = -1; for (int i = 0; i < 8; i++) if (r.named_key[i] == (const void*)pptr) slot = i;
+    if (slot < 0) for (int i = 0; i < 8; i++) if (!r.named_key[i]) { r.named_key[i] = (const void*)pptr; slot = i; break; }
+    if (slot < 0) slot = 0;
+    serial_acquire(&r.named_owner[slot], &r.named_owner[slot], C_CRIT, &G.st.blocked_crit);
+    TSAN_ACQ((void*)pptr);
+}
+void GOMP_critical_name_end(void** pptr) {
+    if (tl_member < 0 || G.reg.n <= 1 || tl_nest > 0) return;
+    if (G.cfg.free_running) { pthread_mutex_unlock(&G.fr_named); return; }
+    Region& r = G.reg; int slot = 0; for (int i = 0; i < 8; i++) if (r.named_key[i] == (const void*)pptr) slot = i;
+    TSAN_REL((void*)pptr);
+    r.named_owner[slot] = -1; wake_blocked(&r.named_owner[slot]); sched_point(C_UNLOCK);
 }
 void GOMP_atomic_start(void) {
     if (tl_member < 0 || G.reg.n <= 1 || tl_nest > 0) return;
